@@ -798,9 +798,12 @@ class revert_intro(Method):
         assert not cited(state.prf.get_parent_proof(id)), "revert_intro: the assumption is used by another line"
         state.set_line(id, 'sorry', th=Thm.implies_intr(pt.th.prop, cur_item.th))
         item = state.get_proof_item(id.incr_id(1))
-        state.set_line(id.incr_id(1), item.rule, args=item.args,
-                       prevs=[p for p in item.prevs if p != prevs[0]], th=item.th)
-        state.remove_line(prevs[0])
+        # Only the last assumption is reverted: the same line may be cited
+        # once more (two equal assumptions are merged into one line).
+        new_prevs = item.prevs[:-2] + item.prevs[-1:]
+        state.set_line(id.incr_id(1), item.rule, args=item.args, prevs=new_prevs, th=item.th)
+        if prevs[0] not in new_prevs:
+            state.remove_line(prevs[0])
 
 
 @register_method('exists_elim')
